@@ -24,6 +24,10 @@ type cand struct {
 	// otherwise a set of secondarySets (files the extractor reads through input.FS besides the one it is
 	// invoked on).
 	Seeds string
+	// Variant selects a non-default instance of the extractor (see newExtractorVariant): "tight-budget" is
+	// java/archive with MaxOpenedBytes turned down to tightBudget so that its recursive size cap can be
+	// exceeded — and observed — with kilobyte inputs.
+	Variant string
 	// NoOSRelease leaves etc/os-release out of the scene (to reach the usr/lib/os-release fallback).
 	NoOSRelease bool
 }
@@ -102,9 +106,12 @@ var specs = map[string]spec{
 		// go.sum is consulted for go < 1.17
 		{Path: "src/go.mod", MutPath: "src/go.sum", Primary: "i:gomod-116", Seeds: "gosum"},
 	}},
-	"haskell/cabal":                      one("cabal.project.freeze"),
-	"haskell/stacklock":                  one("stack.yaml.lock"),
-	"java/archive":                       one("opt/app/lib/app.jar"),
+	"haskell/cabal":     one("cabal.project.freeze"),
+	"haskell/stacklock": one("stack.yaml.lock"),
+	"java/archive": {ExtraSeeds: jarShapeSeeds, Cands: []cand{
+		{Path: "opt/app/lib/app.jar"},
+		{Path: "opt/app/lib/app.jar", Variant: "tight-budget", Seeds: "jar-shapes"},
+	}},
 	"java/gradlelockfile":                many("gradle.lockfile", "buildscript-gradle.lockfile"),
 	"java/gradleverificationmetadataxml": one("gradle/verification-metadata.xml"),
 	"java/pomxml": {Cands: []cand{
@@ -215,10 +222,16 @@ type secondarySet struct {
 	// FixtureDir (relative to the repository) and Match select fixture files; Match is a suffix list, empty = all.
 	FixtureDir string
 	Match      []string
-	NoMinimal  bool // do not add the minimal documents
+	NoMinimal  bool     // do not add the minimal documents
+	Full       []string // complete seed ids ("b:<built archive>", ...)
+	MaxSize    int      // fixtures larger than this are left out (0 = no limit)
 }
 
+// jarShapeSeeds are the built nested-archive shapes (container.go) as seed ids.
+var jarShapeSeeds = []string{"b:jar-min", "b:jar-broken-inner-2", "b:jar-broken-inner-8", "b:jar-broken-inner-400", "b:jar-healthy-inner-8", "b:jar-mixed-inner-16", "b:jar-nested-3-broken-leaves"}
+
 var secondarySets = map[string]secondarySet{
+	"jar-shapes":          {Full: jarShapeSeeds, FixtureDir: "extractor/filesystem/language/java/archive/testdata", Match: []string{".jar"}, MaxSize: 64 << 10, NoMinimal: true},
 	"osrelease":           {Inline: []string{"osrelease-valid", "osrelease-empty-values"}},
 	"chrome-manifest-min": {Inline: []string{"chrome-manifest-min"}, NoMinimal: true},
 	"chrome-messages":     {Inline: []string{"chrome-messages-min"}, FixtureDir: "extractor/filesystem/misc/chrome/extensions/testdata", Match: []string{"/message.json", "/messages.json"}},
